@@ -94,7 +94,7 @@ def specMsgsAux (isReq : Bool) (dec : DecKind) : Nat → Bytes → List Msg
       if rest.length < e.len then (if rest.isEmpty then [] else [Msg.data (some e) rest.length])
       else
         let body := rest.take e.len
-        let eos := if !isReq && isEndFlag e.flags && e.len != 0 && !(dec.content body).isEmpty then [Msg.eos (dec.content body)] else []
+        let eos := if !isReq && isEndFlag e.flags && e.len != 0 && !(dec.contentF e.flags body).isEmpty then [Msg.eos (dec.contentF e.flags body)] else []
         Msg.data (some e) e.len :: eos ++ specMsgsAux isReq dec fuel (rest.drop e.len)
 
 /-- the complete messages only (a cut last message / a body of a non-enveloped protocol that
@@ -109,7 +109,7 @@ def completeMsgsAux (isReq : Bool) (dec : DecKind) : Nat → Bytes → List Msg
       if rest.length < e.len then []
       else
         let body := rest.take e.len
-        let eos := if !isReq && isEndFlag e.flags && e.len != 0 && !(dec.content body).isEmpty then [Msg.eos (dec.content body)] else []
+        let eos := if !isReq && isEndFlag e.flags && e.len != 0 && !(dec.contentF e.flags body).isEmpty then [Msg.eos (dec.contentF e.flags body)] else []
         Msg.data (some e) e.len :: eos ++ completeMsgsAux isReq dec fuel (rest.drop e.len)
 
 def completeMsgs (c : DCfg) (body : Bytes) : List Msg :=
